@@ -25,8 +25,12 @@ func (e *Engine) VerifyFunction(fn *ssa.Function, con *Contract) (err error) {
 	if len(fn.Blocks) == 0 {
 		return fmt.Errorf("%s: no body", x.short)
 	}
+	x.unroll = e.unroll
+	if x.unroll > 0 {
+		x.maxPaths = 30000
+	}
 	// pass 1: collect the heap write set (for loop-head havoc) without emitting obligations
-	if len(x.hdrList) > 0 {
+	if len(x.hdrList) > 0 && x.unroll == 0 {
 		x.collecting = true
 		x.explore()
 		x.collecting = false
@@ -97,6 +101,7 @@ func (x *fnCtx) newTopState() (*State, *Frame) {
 	}
 	st.assume(Not(Select(x.heapArr(st, "$alloc", ArrSort(SInt, SBool)), IntLit(0))))
 	fr.oldHeap = st.heap.snapshot()
+	x.lastParams = fr.params
 	return st, fr
 }
 
@@ -148,6 +153,9 @@ func (x *fnCtx) explore() {
 		}
 	}
 	x.runBlock(st, x.fn.Blocks[0], nil, true)
+	if x.unroll > 0 {
+		return
+	}
 	// from each loop header
 	for i, h := range x.hdrList {
 		st, fr := x.newTopState()
